@@ -22,6 +22,7 @@
 -/
 import PyTough.Model.Mapping
 import PyTough.Proofs.MappingRefine2
+import PyTough.Proofs.MappingMoreNearest
 
 namespace Props.C19
 open Py Model.Mapping
@@ -344,5 +345,138 @@ def exGens : List Gen :=
 
 example : genIdentitySetting (exSrc 0) exGrid [true, true] exIdMap exIdCols = true ∧
     ∀ sg ∈ exGens, genPlaced (exSrc 0) exGrid exGrid [['9', '9']] [['9', '8']] sg = true := by decide +kernel
+
+/-! ### `layer_mapping`: the nearest centre, and the first of the nearest (round 3)
+
+  No GeoInv here: the layer structures are ARBITRARY (centres and bottoms in any order, any
+  thickness); only needed: the source has a layer below its atmosphere layer (else `np.argmin`
+  of an empty array raises) and the target's layer names are distinct (they are dict keys). -/
+
+/-- `s.layer_mapping(t)` returns; the atmosphere layer goes to the atmosphere layer; every other
+    target layer `l` goes to the source layer `S = s.layerlist[1 + i]` with
+    (nearest) `|S.centre − l.centre| ≤ |X.centre − l.centre|` for EVERY source layer `X` below the
+    atmosphere layer, and (tie rule of `np.argmin`) strictly `<` for every such `X` before `S`. -/
+theorem layer_mapping_nearest_first (s t : Geo) (g0 s0 : Lay) (grest srest : List Lay)
+    (hg : t.lays = g0 :: grest) (hs : s.lays = s0 :: srest) (hne : srest ≠ [])
+    (hnd : nodupB (t.lays.map (·.name)) = true) :
+    ∃ lm, layerMapping s t = .ok lm ∧ dget lm g0.name = .ok s0.name ∧
+      ∀ l ∈ grest, ∃ (i : Nat) (S : Lay), srest[i]? = some S ∧ dget lm l.name = .ok S.name ∧
+        (∀ X ∈ srest, absQ (S.centre - l.centre) ≤ absQ (X.centre - l.centre)) ∧
+        ∀ (j : Nat) (X : Lay), j < i → srest[j]? = some X → absQ (S.centre - l.centre) < absQ (X.centre - l.centre) := by
+  obtain ⟨lm, h1, h2, h3⟩ := Proofs.Mapping.layerMapping_first s t g0 s0 grest srest hg hs hne hnd
+  refine ⟨lm, h1, h2, fun l hl => ?_⟩
+  obtain ⟨i, S, ⟨a, b, c⟩, d⟩ := h3 l hl
+  exact ⟨i, S, a, d, b, c⟩
+
+/-- unordered source layers (centres −25, −5, −15, −5) and a target layer (centre −10) exactly
+    half way between two of them -/
+def exLaySrc : Geo :=
+  { conv := .c0, atm := 2, dmplex := false, cols := [],
+    lays := [⟨[' ', '0'], 0, 0⟩, ⟨[' ', '3'], -30, -25⟩, ⟨[' ', '1'], -10, -5⟩, ⟨[' ', '2'], -20, -15⟩, ⟨[' ', '4'], -7, -5⟩] }
+def exLayTgt : Geo :=
+  { conv := .c0, atm := 2, dmplex := false, cols := [],
+    lays := [⟨['a', 't'], 0, 0⟩, ⟨[' ', 'x'], -12, -10⟩, ⟨[' ', 'y'], -100, -50⟩] }
+
+example : exLaySrc.lays.drop 1 ≠ [] ∧ nodupB (exLayTgt.lays.map (·.name)) = true := by decide +kernel
+-- the tie between ' 1' (index 1) and ' 2' (index 2) goes to the first; ' 4' (same centre as ' 1') loses too
+example : layerMapping exLaySrc exLayTgt =
+    .ok [(['a', 't'], [' ', '0']), ([' ', 'x'], [' ', '1']), ([' ', 'y'], [' ', '3'])] := by decide +kernel
+
+/-! ### a concrete nearest-neighbour search instead of the parameter `q` (round 3)
+
+  `nearestIdx pts p` (defined in `Proofs/MappingMoreNearest.lean`, namespace `Model.Mapping`):
+  one left-to-right pass over the exact squared distances, keeping the best index so far and
+  replacing it only by a STRICTLY nearer point; 0 for an empty set.  It is what the scipy-less
+  fallback of `column_mapping` (`np.argmin` of the distances) computes, up to the monotone `sqrt`.
+  The theorems above hold for every `q` with `IsNearest q`; instantiated here they carry no
+  uninterpreted parameter any more. -/
+
+/-- `nearestIdx` meets the specification assumed of `cKDTree.query` -/
+theorem nearestIdx_is_nearest : IsNearest nearestIdx := Proofs.Mapping.nearestIdx_isNearest
+
+/-- more precisely: the point it returns is at minimal distance, and every point before it is
+    strictly farther (first minimum) -/
+theorem nearestIdx_first_minimum (pts : List (Rat × Rat)) (p : Rat × Rat) (hne : pts ≠ []) :
+    ∃ y, pts[nearestIdx pts p]? = some y ∧ (∀ x ∈ pts, sqDist y p ≤ sqDist x p) ∧
+      ∀ j w, j < nearestIdx pts p → pts[j]? = some w → sqDist y p < sqDist w p :=
+  Proofs.Mapping.nearestIdx_first pts p hne
+
+example : nearestIdx [(0, 0), (3, 0), (1, 0), (1, 2)] (2, 0) = 1 := by decide +kernel
+example : nearestIdx [(0, 0), (3, 0), (1, 0), (1, 2)] (2, 0) = nearestFirst [(0, 0), (3, 0), (1, 0), (1, 2)] (2, 0) := by
+  decide +kernel
+
+/-- `block_mapping_total_partial` at `nearestIdx` (PARTIAL through `atmOK` only) -/
+theorem block_mapping_total_nearestIdx_partial (s t : Geo)
+    (hs : srcOK s = true) (ht : tgtOK t = true) (ha : atmOK s t = true) :
+    ∃ m cm tnames snames,
+      blockMapping nearestIdx s t = .ok (m, cm) ∧ t.blockNameList = .ok tnames ∧ s.blockNameList = .ok snames ∧
+      (∀ d ∈ tnames, ∃ v, dget m d = .ok v) ∧
+      (∀ un, t.underNames = .ok un → ∀ d ∈ un, ∃ v, dget m d = .ok v ∧ v ∈ snames ∧
+          ∃ sun, s.underNames = .ok sun ∧ v ∈ sun) ∧
+      (∀ an, t.atmNames = .ok an → s.atm ≤ 1 → ∀ d ∈ an, ∃ v, dget m d = .ok v ∧ v ∈ snames ∧
+          ∃ san, s.atmNames = .ok san ∧ v ∈ san) ∧
+      (∀ c ∈ t.cols, ∃ C ∈ s.cols, dget cm c.name = .ok C.name) :=
+  block_mapping_total_partial nearestIdx nearestIdx_is_nearest s t hs ht ha
+
+/-- `block_mapping_spec_partial` at `nearestIdx` (PARTIAL through `atmOK` only) -/
+theorem block_mapping_spec_nearestIdx_partial (s t : Geo)
+    (hs : srcOK s = true) (ht : tgtOK t = true) (ha : atmOK s t = true) :
+    ∃ m cm, blockMapping nearestIdx s t = .ok (m, cm) ∧
+      (∀ c ∈ t.cols, ∃ C, NearestCol s c.centre C ∧ dget cm c.name = .ok C.name) ∧
+      ∀ l c, (l, c) ∈ t.underPairs →
+        ∃ C S L', NearestCol s c.centre C ∧ NearestLay (s.lays.drop 1) l.centre S ∧
+          (if C.surface ≤ S.bottom then s.firstBelow C = some L' else L' = S) ∧
+          (L', C) ∈ s.underPairs ∧
+          ∃ d v, blockName t.conv l.name c.name = .ok d ∧ blockName s.conv L'.name C.name = .ok v ∧
+            dget m d = .ok v :=
+  block_mapping_spec_partial nearestIdx nearestIdx_is_nearest s t hs ht ha
+
+/-- `block_mapping_atmosphere_partial` at `nearestIdx` (PARTIAL through `atmOK` only) -/
+theorem block_mapping_atmosphere_nearestIdx_partial (s t : Geo)
+    (hs : srcOK s = true) (ht : tgtOK t = true) (ha : atmOK s t = true) :
+    ∃ m cm g0 s0, blockMapping nearestIdx s t = .ok (m, cm) ∧ t.lays.head? = some g0 ∧ s.lays.head? = some s0 ∧
+      (t.atm = 0 → s.atm = 0 ∧ ∃ d v, t.atmNames = .ok [d] ∧ s.atmNames = .ok [v] ∧ dget m d = .ok v) ∧
+      (t.atm = 1 → ∀ c ∈ t.cols, ∃ C, NearestCol s c.centre C ∧
+          ∃ d v, blockName t.conv g0.name c.name = .ok d ∧
+            blockName s.conv s0.name (if s.atm = 0 then atmColName s.conv else C.name) = .ok v ∧
+            dget m d = .ok v) :=
+  block_mapping_atmosphere_partial nearestIdx nearestIdx_is_nearest s t hs ht ha
+
+/-- `incon_transfer_total_partial` at `nearestIdx` (PARTIAL through `atmOK` only) -/
+theorem incon_transfer_total_nearestIdx_partial (src : Incon) (s t : Geo)
+    (hs : srcOK s = true) (ht : tgtOK t = true) (ha : atmOK s t = true) (hne : src ≠ [])
+    (hcover : ∀ snames, s.blockNameList = .ok snames → ∀ n ∈ snames, ∃ v, dget src n = .ok v) :
+    ∃ res tnames, transferFrom nearestIdx src s t [] [] = .ok res ∧ t.blockNameList = .ok tnames ∧
+      ∀ d ∈ tnames, ∃ v, dget res d = .ok v :=
+  incon_transfer_total_partial nearestIdx nearestIdx_is_nearest src s t hs ht ha hne hcover
+
+/-- `block_mapping_identity` at `nearestIdx` -/
+theorem block_mapping_identity_nearestIdx (g : Geo)
+    (hs : srcOK g = true) (ht : tgtOK g = true) (hd : distinctCentres g = true) :
+    ∃ m cm names, blockMapping nearestIdx g g = .ok (m, cm) ∧ g.blockNameList = .ok names ∧
+      (∀ d ∈ names, dget m d = .ok d) ∧ (∀ c ∈ g.cols, dget cm c.name = .ok c.name) :=
+  block_mapping_identity nearestIdx nearestIdx_is_nearest g hs ht hd
+
+/-- `block_mapping_keyerror_general` at `nearestIdx` -/
+theorem block_mapping_keyerror_nearestIdx (s t : Geo)
+    (hs : srcOK s = true) (ht : tgtOK t = true) (h0 : t.atm = 0) (hsa : s.atm ≠ 0)
+    (hnc : ∀ c ∈ t.cols, c.name ≠ atmColName t.conv) :
+    blockMapping nearestIdx s t = .error .keyError :=
+  block_mapping_keyerror_general nearestIdx nearestIdx_is_nearest s t hs ht h0 hsa hnc
+
+-- hypotheses: the same examples as for the parametric theorems (`exSrc`, `exTgt`, `exInc`); the
+-- instantiated functions compute:
+example : image (blockMapping nearestIdx (exSrc 2) (exTgt 2)) [' ', 'a', ' ', ' ', '3'] = some [' ', ' ', 'b', ' ', '2'] := by decide +kernel
+example : (transferFrom nearestIdx (exInc 1) (exSrc 1) (exTgt 1) [] []).toBool = true := by decide +kernel
+example : exInc 1 ≠ [] ∧ ∀ snames, (exSrc 1).blockNameList = .ok snames → ∀ n ∈ snames, ∃ v, dget (exInc 1) n = .ok v := by
+  refine ⟨by decide +kernel, ?_⟩
+  intro snames h n hn
+  have e : (exSrc 1).blockNameList = .ok ((exInc 1).map (·.1)) := by decide +kernel
+  rw [e] at h; cases h
+  have : ∀ n ∈ (exInc 1).map (·.1), (dget (exInc 1) n).toBool = true := by decide +kernel
+  have := this n hn
+  cases hv : dget (exInc 1) n with
+  | ok v => exact ⟨v, rfl⟩
+  | error e => rw [hv] at this; cases this
 
 end Props.C19
